@@ -44,7 +44,10 @@ for pid in ALL:
         },
         "level_note": ns.get("LEVEL_NOTE", "Trusted base: the reference models in /verif/pmv/ref (written forward from "
                              "the standards, no pyModeS import), CPython, numpy. Held = held on the executions observed."),
-        "technique": ns.get("TECHNIQUE", "runtime monitoring: oracle over observed executions of the real code"),
+        "technique": ns.get("TECHNIQUE", "runtime monitoring: oracle over observed executions of the real code") +
+        ("" if pid in ("C16", "C17", "C19") else "; plus the generic replay phases on a recorded sample of the calls (shuffled order, after "
+         "helper / foreign-decoder calls, arguments by name, numpy.str_ messages, other numpy print options, 4 concurrent "
+         "threads, cold-start threads in fresh interpreters): f(x) must stay f(x)"),
     })
 
 manifest = {
